@@ -146,7 +146,16 @@ func marshalUnknownValue(rng cty.ValueRange, path cty.Path, enc *msgpack.Encoder
 	return nil
 }
 
-func unmarshalUnknownValue(dec *msgpack.Decoder, ty cty.Type, path cty.Path) (cty.Value, error) {
+func unmarshalUnknownValue(dec *msgpack.Decoder, ty cty.Type, path cty.Path) (ret cty.Value, err error) {
+	// The refinement builder panics when given refinements that contradict
+	// each other or do not apply to the type; for data arriving from outside
+	// that is an ordinary decoding error.
+	defer func() {
+		if r := recover(); r != nil {
+			ret = cty.DynamicVal
+			err = path.NewErrorf("invalid refinements for unknown value: %v", r)
+		}
+	}()
 	// The next item in the stream should be a msgpack extension value,
 	// which might be zero-length for a totally unknown value, or it might
 	// contain a mapping describing some type-specific refinements.
